@@ -39,7 +39,10 @@ CFG = dict(
                "binary64 (NaN propagation of -, |NaN|, irreflexive <, from the standard library's FloatAxioms). "
                "Still only by correspondence: the announced length (size_hint), the backends, i32 overflow. The "
                "model is tied to the code by an exhaustive small-scope + sampled differential "
-               "run through the public API on every backend.",
+               "run through the public API on every backend. "
+               "Second, static tie (translator): the sign-convention tables of shift / vshift / vdiff / vpct_change (early guard, fill value, the arms of `match n` and the repeat_n / take / skip / chain / zip / map pipeline of each arm with its count expressions, the guards of the percentage closures) are re-extracted from the Rust source text on every run and Proofs/SrcTablesAgg.v re-proves, for every lag, fill value and series, that Model/MapOps.v evaluates exactly those pipelines (src_shift_conforms, src_vshift_conforms, src_vdiff_conforms, src_vpct_change_conforms).",
+    src_tables=True,   # tools/gen_tables.py + Proofs/SrcTablesAgg.v: decision tables regenerated from the Rust source on every run
+    src_tables_proofs=["Proofs/SrcTablesAgg.vo"],
     level_note="Trusted: Coq kernel; the hand-written list model of tea-map's iterator constructions and of std's "
                "repeat_n/chain/zip/take/skip/rev/map; the IsNone dictionary instances (f64, Option, integer); IEEE "
                "arithmetic enters only the Run/ instance (PrimFloat) compared with the code, the theorems are over "
